@@ -3,6 +3,7 @@ package checks
 import (
 	"crypto/x509"
 	"fmt"
+	"strings"
 	"time"
 
 	"github.com/google/go-tdx-guest/verify"
@@ -43,15 +44,36 @@ type c06shape struct {
 	cons     []c06con
 	instants []time.Time
 	both     bool
+	focused  bool
 }
 
 func mo(k int) time.Time { return world.T0.AddDate(0, k, 0) }
 
-func c06Build(shape int) *c06shape {
+// c06Build builds one honest world. With focus == "" validity instants are staggered (month k);
+// with a focus, that one artifact's expiry (or, for "nb:<role>", notBefore) lies one month from the
+// reference instant and every other instant is ten years away, so that it is the first to bite.
+func c06Build(shape int, focus string) *c06shape {
 	w := world.Honest("T")
 	pki := w.PKI
 	plat := w.Plat
+	role := ""
+	far := 0
+	adj := func(nb, na int) (int, int) {
+		if focus == "" {
+			return nb, na
+		}
+		far++
+		fnb, fna := -120-far, 120+far
+		if focus == role {
+			fna = 1
+		}
+		if focus == "nb:"+role {
+			fnb = -1
+		}
+		return fnb, fna
+	}
 	cert := func(cn string, key *world.Key, ca bool, nb, na int, parent *x509.Certificate, signer *world.Key, sgx bool) *x509.Certificate {
+		nb, na = adj(nb, na)
 		s := world.CertSpec{CN: cn, Key: key, IsCA: ca, NotBefore: mo(nb), NotAfter: mo(na)}
 		if ca && cn == world.CNRoot {
 			s.MaxPathLen = 1
@@ -68,29 +90,57 @@ func c06Build(shape int) *c06shape {
 	var poolRoot, chainRoot, tcbRoot, qeRoot, crlRoot, inter, crlInter *x509.Certificate
 	if shape == 1 {
 		s.name = "shared-root"
+		if focus != "" {
+			s.name += "/first:" + focus
+		}
+		role = "root"
 		poolRoot = cert(world.CNRoot, pki.RootKey, true, -60, 12, nil, pki.RootKey, false)
 		chainRoot, tcbRoot, qeRoot, crlRoot = poolRoot, poolRoot, poolRoot, poolRoot
+		role = "inter"
 		inter = cert(world.CNPlatform, pki.InterKey, true, -5, 2, poolRoot, pki.RootKey, false)
 		crlInter = inter
 	} else {
 		s.name = "own-copies"
+		if focus != "" {
+			s.name += "/first:" + focus
+		}
+		role = "root"
 		poolRoot = cert(world.CNRoot, pki.RootKey, true, -60, 60, nil, pki.RootKey, false)
+		role = "chainRoot"
 		chainRoot = cert(world.CNRoot, pki.RootKey, true, -61, 12, nil, pki.RootKey, false)
+		role = "tcbRoot"
 		tcbRoot = cert(world.CNRoot, pki.RootKey, true, -62, 11, nil, pki.RootKey, false)
+		role = "qeRoot"
 		qeRoot = cert(world.CNRoot, pki.RootKey, true, -63, 13, nil, pki.RootKey, false)
+		role = "crlRoot"
 		crlRoot = cert(world.CNRoot, pki.RootKey, true, -64, 10, nil, pki.RootKey, false)
+		role = "inter"
 		inter = cert(world.CNPlatform, pki.InterKey, true, -5, 2, chainRoot, pki.RootKey, false)
+		role = "crlInter"
 		crlInter = cert(world.CNPlatform, pki.InterKey, true, -6, 9, crlRoot, pki.RootKey, false)
 	}
+	role = "leaf"
 	leaf := cert(world.CNLeaf, pki.LeafKey, false, -1, 1, inter, pki.InterKey, true)
+	role = "tcbSigner"
 	tcbSigner := cert(world.CNTcb, pki.TcbKey, false, -2, 3, tcbRoot, pki.RootKey, false)
+	role = "qeSigner"
 	qeSigner := cert(world.CNTcb, tcb2Key, false, -3, 4, qeRoot, pki.RootKey, false)
 	p := w.Parts.Clone()
 	p.Chain = world.PEM(leaf, inter, chainRoot)
 	raw, _ := p.Bytes()
 	s.raw = raw
 	ti, qi := w.TcbInfo, w.QeID
-	ti.NextUpdate, qi.NextUpdate = world.TimeStr(mo(5)), world.TimeStr(mo(6))
+	nu := func(name string, staggered int) time.Time {
+		if focus == "" {
+			return mo(staggered)
+		}
+		if focus == name {
+			return mo(1)
+		}
+		return mo(130 + staggered)
+	}
+	tcbNU, qeNU, pckCrlNU, rootCrlNU := nu("tcbNext", 5), nu("qeNext", 6), nu("pckCrlNext", 7), nu("rootCrlNext", 8)
+	ti.NextUpdate, qi.NextUpdate = world.TimeStr(tcbNU), world.TimeStr(qeNU)
 	ti.IssueDate, qi.IssueDate = world.TimeStr(mo(-1)), world.TimeStr(mo(-1))
 	g := world.NewGetter()
 	g.Responses[world.URLTcbInfo(hexs(plat.FMSPC))] = world.Response{Header: map[string][]string{world.HdrTcbInfo: {world.IssuerChainHeader(tcbSigner, tcbRoot)}},
@@ -98,8 +148,8 @@ func c06Build(shape int) *c06shape {
 	g.Responses[world.URLQeIdentity] = world.Response{Header: map[string][]string{world.HdrQeIdentity: {world.IssuerChainHeader(qeSigner, qeRoot)}},
 		Body: world.SignedBody("enclaveIdentity", world.MustJSON(qi), tcb2Key)}
 	g.Responses[world.URLPckCrl("platform")] = world.Response{Header: map[string][]string{world.HdrPckCrl: {world.IssuerChainHeader(crlInter, crlRoot)}},
-		Body: world.MakeCRL(world.CRLSpec{Issuer: inter, Signer: pki.InterKey, ThisUpdate: mo(-1), NextUpdate: mo(7)})}
-	g.Responses[world.RootCRLURL] = world.Response{Body: world.MakeCRL(world.CRLSpec{Issuer: chainRoot, Signer: pki.RootKey, ThisUpdate: mo(-1), NextUpdate: mo(8)})}
+		Body: world.MakeCRL(world.CRLSpec{Issuer: inter, Signer: pki.InterKey, ThisUpdate: mo(-1), NextUpdate: pckCrlNU})}
+	g.Responses[world.RootCRLURL] = world.Response{Body: world.MakeCRL(world.CRLSpec{Issuer: chainRoot, Signer: pki.RootKey, ThisUpdate: mo(-1), NextUpdate: rootCrlNU})}
 	s.getter = g
 	s.roots = world.Pool(poolRoot)
 	con := func(name string, field, level int, nb, na time.Time) {
@@ -111,18 +161,28 @@ func c06Build(shape int) *c06shape {
 	con("pck intermediate", fPck, 0, inter.NotBefore, inter.NotAfter)
 	con("pck chain root (expiry)", fPck, 0, z, chainRoot.NotAfter)
 	con("trusted root (path)", fPck, 0, poolRoot.NotBefore, poolRoot.NotAfter)
-	con("tcbInfo nextUpdate", fTcb, 1, z, mo(5))
+	con("tcbInfo nextUpdate", fTcb, 1, z, tcbNU)
 	con("tcbInfo signer", fTcb, 1, tcbSigner.NotBefore, tcbSigner.NotAfter)
 	con("tcbInfo issuer root (expiry)", fTcb, 1, z, tcbRoot.NotAfter)
 	con("trusted root (tcbInfo path)", fTcb, 1, poolRoot.NotBefore, poolRoot.NotAfter)
-	con("qeIdentity nextUpdate", fQe, 1, z, mo(6))
+	con("qeIdentity nextUpdate", fQe, 1, z, qeNU)
 	con("qeIdentity signer", fQe, 1, qeSigner.NotBefore, qeSigner.NotAfter)
 	con("qeIdentity issuer root (expiry)", fQe, 1, z, qeRoot.NotAfter)
 	con("trusted root (qeIdentity path)", fQe, 1, poolRoot.NotBefore, poolRoot.NotAfter)
-	con("PCK CRL nextUpdate", fPckCrl, 2, z, mo(7))
+	con("PCK CRL nextUpdate", fPckCrl, 2, z, pckCrlNU)
 	con("PCK CRL issuer CA (expiry)", fPckCrl, 2, z, crlInter.NotAfter)
 	con("PCK CRL issuer root (expiry)", fPckCrl, 2, z, crlRoot.NotAfter)
-	con("Root CA CRL nextUpdate", fRootCrl, 2, z, mo(8))
+	con("Root CA CRL nextUpdate", fRootCrl, 2, z, rootCrlNU)
+	if focus != "" {
+		// candidate instants: only the one that bites first
+		t := mo(1)
+		if strings.HasPrefix(focus, "nb:") {
+			t = mo(-1)
+		}
+		s.instants = []time.Time{t}
+		s.focused = true
+		return s
+	}
 	seen := map[int64]bool{}
 	for _, c := range s.cons {
 		for _, t := range []time.Time{c.nb, c.na} {
@@ -153,7 +213,13 @@ func (s *c06shape) inDate(level int, ts [5]time.Time) (bool, string) {
 }
 
 func runC06(r *mc.Run) {
-	shapes := []*c06shape{c06Build(1), c06Build(2)}
+	shapes := []*c06shape{c06Build(1, ""), c06Build(2, "")}
+	for _, f := range []string{"leaf", "inter", "root", "tcbSigner", "qeSigner", "tcbNext", "qeNext", "pckCrlNext", "rootCrlNext", "nb:leaf", "nb:inter", "nb:root", "nb:tcbSigner", "nb:qeSigner"} {
+		shapes = append(shapes, c06Build(1, f))
+	}
+	for _, f := range []string{"leaf", "inter", "root", "chainRoot", "tcbSigner", "tcbRoot", "qeSigner", "qeRoot", "crlInter", "crlRoot", "tcbNext", "qeNext", "pckCrlNext", "rootCrlNext", "nb:leaf", "nb:inter", "nb:root", "nb:tcbSigner", "nb:qeSigner"} {
+		shapes = append(shapes, c06Build(2, f))
+	}
 	for _, s := range shapes {
 		// candidate values per field
 		type tv struct {
@@ -192,6 +258,10 @@ func runC06(r *mc.Run) {
 		}
 		if !r.Thorough() && !s.both {
 			pairLevels = nil
+		}
+		if s.focused {
+			pairLevels = lvls
+			pairVals = vals
 		}
 		for _, l := range pairLevels {
 			for f1 := 0; f1 < 5; f1++ {
